@@ -29,7 +29,12 @@ type Search struct {
 }
 
 func newSearch(db *DB, o Object, f []*indexedField, err error) *Search {
-	return &Search{db: db, object: o, fields: f, limit: math.MaxUint, err: err}
+	// results of an index search are sub-slices of the index itself. We
+	// need a copy, otherwise the results change when the index is modified
+	// and appending to the results (Or) overwrites index entries
+	fields := make([]*indexedField, len(f))
+	copy(fields, f)
+	return &Search{db: db, object: o, fields: fields, limit: math.MaxUint, err: err}
 }
 
 // ExpectsZeroOrN checks that the number of results is the one expected or zero.
